@@ -337,6 +337,22 @@ func c02Overlap(doc any, rng *rand.Rand) any {
 					steps[si] = m
 				}
 			}
+			if isCmd && rng.Intn(4) == 0 {
+				// an OPTIONAL plugin: its whole source comes from a variable that expands to nothing, so the interpolated
+				// step carries a plugin with the empty source - signed and written out like any other entry
+				for pi, p := range m {
+					if p[0] != "plugins" {
+						continue
+					}
+					switch pl := p[1].(type) {
+					case []any:
+						m[pi] = [2]any{"plugins", append(append([]any{}, pl...), "${C02_NOT_SET}")}
+					case orderedJSON:
+						m[pi] = [2]any{"plugins", append(append(orderedJSON{}, pl...), [2]any{"${C02_NOT_SET}", nil})}
+					}
+					steps[si] = m
+				}
+			}
 			if isCmd && rng.Intn(3) == 0 {
 				// the document already carries a signature (made earlier, over other content, maybe with the very
 				// algorithm that signs now): signing replaces it
